@@ -113,5 +113,17 @@ def main(argv=None):
     return 1 if nviol else 0
 
 
+def _main():
+    try:
+        return main()
+    except SystemExit:
+        raise
+    except BaseException:
+        # a crash of the harness is never a verdict about the property
+        traceback.print_exc()
+        print("HARNESS-ERROR: the check could not run to completion")
+        return 2
+
+
 if __name__ == "__main__":
-    sys.exit(main())
+    sys.exit(_main())
